@@ -80,25 +80,92 @@ def r1_value_ops(rep, ctx):
         rep.check(not why, "C03.R1", "UnitDatabase.%s" % opname, "%s applies %s to the operands after unit matching" % (opname, want.__name__), "UnitDatabase.%s %s" % (opname, "; ".join(why)), node=ret, fn=fn)
 
 
+class _Shape:
+    """How _MatchQuantities walks the two operand maps: .order = the map parameters in visiting order,
+    .loops = [(entry loop, sides it runs for)], .outer = the statement reports point at."""
+
+
 def _matchq(m):
+    """Two accepted shapes: one loop over the literal pair of maps with the entry loop inside
+    (`for c in (map1, map2): for category, unit_exp in list(c.items())`), or one entry loop per map, in sequence
+    (the same loop written twice, or a per-side helper called twice)."""
     fn = m.method("UnitDatabase", "_MatchQuantities")
+    sh = _Shape()
+    if len(fn.params) != 5:
+        raise AnalysisError("_MatchQuantities: expected (self, map1, map2, value1, value2)")
     outer = [lp for lp in own_statements(fn.node) if isinstance(lp, ast.For) and isinstance(lp.iter, ast.Tuple)]
-    if len(outer) != 1:
-        raise AnalysisError("_MatchQuantities: the loop over the two operand maps was not found (unit-matching idiom changed)")
-    return fn, outer[0]
+    if len(outer) == 1:
+        inner = [lp for lp in own_statements(outer[0]) if isinstance(lp, ast.For)]
+        if len(inner) != 1:
+            raise AnalysisError("_MatchQuantities: the loop over the entries of a map was not found")
+        sh.kind = "pair-loop"
+        sh.outer = outer[0]
+        sh.order = [e.id if isinstance(e, ast.Name) else None for e in outer[0].iter.elts]
+        sh.loops = [(inner[0], {1, 2})]
+        sh.pairvar = outer[0].target.id if isinstance(outer[0].target, ast.Name) else None
+        return fn, sh
+    if not outer:
+        res = Resolver(m, fn)
+        MP = [("param", i_, p_) for i_, p_ in enumerate(fn.params)]
+        loops = []
+        for lp in own_statements(fn.node):
+            if isinstance(lp, ast.For) and not any(isinstance(x, ast.For) for x in own_statements(lp) if x is not lp):
+                roots = {x for x in walk(res.term(lp.iter)) if x in MP[1:3]}
+                if len(roots) == 1:
+                    loops.append((lp, {MP.index(next(iter(roots)))}))
+        nested = any(isinstance(getattr(lp, "_parent", None), (ast.For, ast.While)) for lp, _ in loops)
+        if len(loops) == 2 and not nested and loops[0][1] != loops[1][1]:
+            sh.kind = "two-loops"
+            sh.outer = loops[0][0]
+            sh.order = [fn.params[next(iter(sd))] for _, sd in loops]
+            sh.loops = loops
+            sh.pairvar = None
+            return fn, sh
+    raise AnalysisError("_MatchQuantities: the loop over the two operand maps was not found (unit-matching idiom changed)")
+
+
+def mq_convention(m):
+    """The calling convention of _MatchQuantities, read from its return: {'map1': i, 'map2': j, 'v1': k, 'v2': l} -
+    the positions of its result that hand back the two maps (absent when they are only matched in place) and
+    the two matched values."""
+    mqf = m.method("UnitDatabase", "_MatchQuantities")
+    mres = Resolver(m, mqf)
+    mrets = [r for r in own_nodes(mqf.node) if isinstance(r, ast.Return) and r.value is not None]
+    if len(mrets) != 1:
+        raise AnalysisError("_MatchQuantities: expected one return, found %d" % len(mrets))
+    rt = mres.term(mrets[0].value)
+    if rt[0] != "tuple" or len(mqf.params) != 5:
+        raise AnalysisError("_MatchQuantities does not return a tuple of maps / values: %s" % show(rt, 100))
+    MP = [("param", i_, p_) for i_, p_ in enumerate(mqf.params)]
+    pos = {}
+    for j, el in enumerate(rt[1]):
+        leaves = {x for x in walk(el) if x in MP[1:]}
+        if el in (MP[1], MP[2]):
+            pos["map%d" % MP.index(el)] = j
+        elif leaves and leaves <= {MP[3]} | set(MP[1:3]) and MP[3] in leaves:
+            pos["v1"] = j
+        elif leaves and leaves <= {MP[4]} | set(MP[1:3]) and MP[4] in leaves:
+            pos["v2"] = j
+        else:
+            pos.setdefault("other", []).append(j)
+    pos["return"] = mrets[0]
+    pos["n"] = len(rt[1])
+    return pos
 
 
 def r2_left_wins(rep, ctx):
     m = ctx.model
-    fn, outer = _matchq(m)
-    order = [e.id if isinstance(e, ast.Name) else None for e in outer.iter.elts]
+    fn, sh = _matchq(m)
+    outer, order = sh.outer, sh.order
     rep.check(order == fn.params[1:3], "C03.R2", "_MatchQuantities:left-first", "unit matching visits the left operand's map before the right one's: the left unit is the reference",
               "unit matching visits %s: the right operand's unit becomes the reference, results come out in the right operand's units" % order, node=outer, fn=fn)
-    # returned maps and values keep their sides
-    res = Resolver(m, fn, flow=False)
-    rets = [r for r in own_nodes(fn.node) if isinstance(r, ast.Return) and r.value is not None]
-    ok = len(rets) == 1 and isinstance(rets[0].value, ast.Tuple) and [ast.unparse(e) for e in rets[0].value.elts] == fn.params[1:5]
-    rep.check(ok, "C03.R2", "_MatchQuantities:returns-sides", "unit matching returns (map1, map2, value1, value2) in operand order", "unit matching returns %s" % (ast.unparse(rets[0].value) if rets else None), fn=fn)
+    # returned values (and maps, when they are handed back) keep their sides: every position of the result is
+    # one operand's map or one operand's matched value, and the callers below take them from those positions
+    pos = mq_convention(m)
+    ok = "v1" in pos and "v2" in pos and "other" not in pos
+    rep.check(ok, "C03.R2", "_MatchQuantities:returns-sides", "unit matching returns each operand's matched value (and map) at a position of its own", "unit matching returns %s: a position mixes the operands or one operand's value is missing" % ast.unparse(pos["return"].value), fn=fn)
+    if not ok:
+        return
     sq = m.method("UnitDatabase", "_DoOperationWithSameQuantity")
     sres = Resolver(m, sq)
     scfg = sres.cfg
@@ -161,42 +228,57 @@ def r2_left_wins(rep, ctx):
                 return False
             return True
 
-        order_ok = v[0] == "call" and len(v[2]) == 2 and val_ok(v[2][0], 3, 2) and val_ok(v[2][1], 4, 3)
+        order_ok = v[0] == "call" and len(v[2]) == 2 and val_ok(v[2][0], 3, pos["v1"]) and val_ok(v[2][1], 4, pos["v2"])
         rep.check(ok and order_ok, "C03.R2", "same-quantity:result:%d" % n, "the result carries the left operand's quantity (the right one only when the left is dimensionless) and operation(value1, value2)",
                   "the result quantity derives from operand(s) %s%s / the value operation gets %s" % (sorted(x for x in roots if x), "" if ok else " (the right one without the left being dimensionless)", show(v, 100)), node=r, fn=sq)
     rep.floor("C03.R2", "result returns", n, 1)
 
 
+def _value_side(fn, res, call):
+    """Which operand's value a conversion call converts: 'value1' / 'value2' (the parameter its value argument
+    derives from), else None."""
+    sides = set()
+    for a_ in call.args[3:4]:
+        for x in walk(res.term(a_)):
+            if x[0] == "param" and x[2] in fn.params[3:5]:
+                sides.add(x[2])
+    return next(iter(sides)) if len(sides) == 1 else None
+
+
 def r3_exponent_flows(rep, ctx):
     m = ctx.model
-    fn, outer = _matchq(m)
-    unpacks = [st for st in own_statements(fn.node) if isinstance(st, ast.Assign) and isinstance(st.targets[0], ast.Tuple) and len(st.targets[0].elts) == 2
-               and isinstance(st.value, ast.Name)]
-    if len(unpacks) != 1:
-        raise AnalysisError("_MatchQuantities: the unpacking of a [unit, exp] entry was not found")
-    unit_v, exp_v = (e.id for e in unpacks[0].targets[0].elts)
-    convs = [c for c in own_nodes(fn.node) if isinstance(c, ast.Call) and isinstance(c.func, ast.Attribute) and c.func.attr in ("Convert", "_ConvertWithExp")]
-    rep.floor("C03.R3", "conversions in unit matching", len(convs), 1)
-    # def-use: does the exponent reach any conversion (directly or through locals)?
-    uses = [x for x in ast.walk(fn.node) if isinstance(x, ast.Name) and x.id == exp_v and isinstance(x.ctx, ast.Load)]
-    for c in convs:
-        reach = any(isinstance(x, ast.Name) and x.id == exp_v for x in ast.walk(c))
-        if not reach and uses:
-            # through a local
-            tainted = {exp_v}
-            changed = True
-            while changed:
-                changed = False
-                for st in own_statements(fn.node):
-                    if isinstance(st, ast.Assign) and isinstance(st.targets[0], ast.Name) and st.targets[0].id not in tainted and any(isinstance(x, ast.Name) and x.id in tainted for x in ast.walk(st.value)):
-                        tainted.add(st.targets[0].id)
-                        changed = True
-            reach = any(isinstance(x, ast.Name) and x.id in tainted for x in ast.walk(c))
-        side = "value1" if "value1" in ast.unparse(c) else "value2"
-        rep.check(reach, "C03.R3", "_MatchQuantities:exponent-reaches-conversion:%s" % side,
-                  "the exponent of the entry takes part in the conversion of %s" % side,
-                  "the exponent (`%s`) of a composing entry never reaches the conversion of %s: `%s` scales the value by the plain unit ratio whatever the exponent, so 1 m2 + 10000 cm2 gives 101 m2"
-                  % (exp_v, side, norm(ast.unparse(c))), node=c, fn=fn, facts={"exponent_variable": exp_v, "uses_of_exponent": len(uses)})
+    fn, sh = _matchq(m)
+    res = Resolver(m, fn)
+    total = 0
+    for loop, _sides in sh.loops:
+        unpacks = [st for st in own_statements(loop) if isinstance(st, ast.Assign) and isinstance(st.targets[0], ast.Tuple) and len(st.targets[0].elts) == 2
+                   and isinstance(st.value, ast.Name)]
+        if len(unpacks) != 1:
+            raise AnalysisError("_MatchQuantities: the unpacking of a [unit, exp] entry was not found")
+        unit_v, exp_v = (e.id for e in unpacks[0].targets[0].elts)
+        convs = [c for c in own_nodes(loop) if isinstance(c, ast.Call) and isinstance(c.func, ast.Attribute) and c.func.attr in ("Convert", "_ConvertWithExp")]
+        total += len(convs)
+        # def-use: does the exponent reach any conversion (directly or through locals)?
+        uses = [x for x in ast.walk(fn.node) if isinstance(x, ast.Name) and x.id == exp_v and isinstance(x.ctx, ast.Load)]
+        for c in convs:
+            reach = any(isinstance(x, ast.Name) and x.id == exp_v for x in ast.walk(c))
+            if not reach and uses:
+                # through a local
+                tainted = {exp_v}
+                changed = True
+                while changed:
+                    changed = False
+                    for st in own_statements(fn.node):
+                        if isinstance(st, ast.Assign) and isinstance(st.targets[0], ast.Name) and st.targets[0].id not in tainted and any(isinstance(x, ast.Name) and x.id in tainted for x in ast.walk(st.value)):
+                            tainted.add(st.targets[0].id)
+                            changed = True
+                reach = any(isinstance(x, ast.Name) and x.id in tainted for x in ast.walk(c))
+            side = _value_side(fn, res, c) or ("value1" if "value1" in ast.unparse(c) else "value2")
+            rep.check(reach, "C03.R3", "_MatchQuantities:exponent-reaches-conversion:%s" % side,
+                      "the exponent of the entry takes part in the conversion of %s" % side,
+                      "the exponent (`%s`) of a composing entry never reaches the conversion of %s: `%s` scales the value by the plain unit ratio whatever the exponent, so 1 m2 + 10000 cm2 gives 101 m2"
+                      % (exp_v, side, norm(ast.unparse(c))), node=c, fn=fn, facts={"exponent_variable": exp_v, "uses_of_exponent": len(uses)})
+    rep.floor("C03.R3", "conversions in unit matching", total, 1)
 
 
 def r4_dispatch(rep, ctx):
@@ -208,23 +290,40 @@ def r4_dispatch(rep, ctx):
 
 def r5_label_and_value(rep, ctx, RID="C03.R5"):
     m = ctx.model
-    fn, outer = _matchq(m)
+    fn, sh = _matchq(m)
     cfg = CFG(fn.node)
     res = Resolver(m, fn)
     rewrites = [st for st in own_statements(fn.node) if isinstance(st, ast.Assign) and isinstance(st.targets[0], ast.Subscript) and isinstance(st.targets[0].slice, ast.Constant) and st.targets[0].slice.value == 0]
     if not rewrites:
         raise AnalysisError("_MatchQuantities: the rewrite of an entry's unit (`entry[0] = reference unit`) was not found")
-    conv_assigns = [st for st in own_statements(fn.node) if isinstance(st, ast.Assign) and isinstance(st.value, ast.Call) and isinstance(st.value.func, ast.Attribute) and st.value.func.attr in ("Convert", "_ConvertWithExp")
-                    and isinstance(st.targets[0], ast.Name) and st.targets[0].id in fn.params[3:5]]
-    inner = [lp for lp in own_statements(outer) if isinstance(lp, ast.For)]
-    if len(inner) != 1:
-        raise AnalysisError("_MatchQuantities: the loop over the entries of a map was not found")
-    body_nodes = {cfg.node_of(st) for st in own_statements(inner[0])}
+    # conversions of an operand's value: `<v> = self.Convert(<type>, <from>, <to>, <value derived from value1 / value2>)` whose result is
+    # what the function hands back for that operand
+    pos = mq_convention(m)
+    conv_assigns = []
+    for st in own_statements(fn.node):
+        if isinstance(st, ast.Assign) and isinstance(st.value, ast.Call) and isinstance(st.value.func, ast.Attribute) and st.value.func.attr in ("Convert", "_ConvertWithExp") and isinstance(st.targets[0], ast.Name):
+            side = st.targets[0].id if st.targets[0].id in fn.params[3:5] else None
+            if side is None:
+                side = _value_side(fn, res, st.value)
+                k = {"value1": "v1", "value2": "v2"}.get(side)
+                elts = pos["return"].value.elts if isinstance(pos["return"].value, ast.Tuple) else []
+                if k is None or k not in pos or pos[k] >= len(elts) or not any(o is st for o, _t in res.origins(elts[pos[k]])):
+                    side = None
+            if side is not None:
+                conv_assigns.append((st, side))
+    loop_of = {}
+    for loop, sides in sh.loops:
+        for st in own_statements(loop):
+            loop_of[id(st)] = (loop, sides)
     for rw in rewrites:
+        if id(rw) not in loop_of:
+            raise AnalysisError("_MatchQuantities: a unit rewrite outside the entry loops")
+        loop, sides = loop_of[id(rw)]
+        body_nodes = {cfg.node_of(st) for st in own_statements(loop)}
         R = cfg.node_of(rw)
-        conv_nodes = {cfg.node_of(st) for st in conv_assigns if cfg.node_of(st) in body_nodes}
+        conv_nodes = {cfg.node_of(st) for st, _sd in conv_assigns if cfg.node_of(st) in body_nodes}
         # within one iteration of the entry loop: every path from the loop header to the rewrite passes a conversion
-        header = cfg.node_of(inner[0])
+        header = cfg.node_of(loop)
         r_ = cfg.reach(header, avoid=conv_nodes | {header})
         ok = bool(conv_nodes) and R not in r_
         rep.check(ok, RID, "_MatchQuantities:rewrite-needs-conversion:%s" % norm(ast.unparse(rw)), "an entry's unit is rewritten to the reference unit only after that side's value was converted in the same iteration",
@@ -236,19 +335,22 @@ def r5_label_and_value(rep, ctx, RID="C03.R5"):
     for st in own_statements(fn.node):
         if isinstance(st, ast.Assign) and isinstance(st.targets[0], ast.Tuple) and len(st.targets[0].elts) == 2 and isinstance(st.value, ast.Name):
             unit_terms.add(res.term(st.targets[0].elts[0]))
-    for st in conv_assigns:
+    for st, side in conv_assigns:
         t = res.term(st.value)
-        side = st.targets[0].id
         args = list(t[2]) if t[0] == "call" else []
         val_ok = len(args) == 4 and any(x == ("param", fn.params.index(side), side) for x in alternatives(args[3]))
         from_ok = len(args) == 4 and args[1] in unit_terms
         to_ok = len(args) == 4 and args[2] != args[1] and any(x[0] == "call" and x[1][0] == "attr" and x[1][2] == "get" for x in alternatives(args[2]))
-        # in the arm of its own map: a dominating `c is <map of that side>` fact
         want_map = fn.params[1] if side == fn.params[3] else fn.params[2]
         other_map = fn.params[2] if side == fn.params[3] else fn.params[1]
         side_ok = False
+        if id(st) in loop_of and len(loop_of[id(st)][1]) == 1:
+            # an entry loop of one map: it must be the map of the value's own side
+            side_ok = loop_of[id(st)][1] == {fn.params.index(want_map)}
+        # (pair loop) in the arm of its own map: a dominating `c is <map of that side>` fact
         P_want, P_other = ("param", fn.params.index(want_map), want_map), ("param", fn.params.index(other_map), other_map)
-        for k, l_, r_, pos in nfacts(cfg, cfg.node_of(st)):
+        for k, l_, r_, pos_ in nfacts(cfg, cfg.node_of(st)) if not (id(st) in loop_of and len(loop_of[id(st)][1]) == 1) else ():
+            pos = pos_
             operands = None
             if k == "is" and l_ is not None and r_ is not None:
                 operands = {res.term(l_), res.term(r_)}
@@ -279,9 +381,9 @@ def r5_label_and_value(rep, ctx, RID="C03.R5"):
             val_ok = entry_path(vt)[1] == (1, 0)
             if key_ok:
                 firsts.append((st, val_ok))
-    ok = len(firsts) == 1 and firsts[0][1]
+    ok = len(firsts) == len(sh.loops) and all(v_ for _, v_ in firsts) and len({ast.unparse(st_.targets[0].value) for st_, _ in firsts}) == 1
     if ok:
         # only where the lookup of a reference unit for this quantity type came back empty
         from ..facts import none_fact
-        ok = any((nf := none_fact(f_)) is not None and nf[1] and any(x[0] == "call" and x[1][0] == "attr" and x[1][2] == "get" for x in walk(res.term(nf[0]))) for f_ in nfacts(cfg, cfg.node_of(firsts[0][0])))
+        ok = all(any((nf := none_fact(f_)) is not None and nf[1] and any(x[0] == "call" and x[1][0] == "attr" and x[1][2] == "get" for x in walk(res.term(nf[0]))) for f_ in nfacts(cfg, cfg.node_of(st_))) for st_, _ in firsts)
     rep.check(ok, RID, "_MatchQuantities:reference-unit", "the first unit met for a quantity type becomes its reference unit", "the reference unit of a quantity type is not the first unit met for it", fn=fn)
